@@ -32,8 +32,6 @@ func sameViolation(r *spec.Result, v *spec.Violation) bool {
 	return r.Violation.Key == v.Key
 }
 
-func multiTask(s *spec.Spec) bool { return len(s.Tasks) > 1 }
-
 // tryRepro runs cand; for PRNG-driven multi-task specs it tries several
 // scheduler streams. On success it returns the reproducing spec (with the Run
 // value that reproduced) and its result.
